@@ -1,4 +1,424 @@
-import Anything.Model.Cbor
+import Anything.Lemmas.EvalSim
+/-!
+# C18 — describing a query does not change its answer and reports exactly the facts used
+
+Model: `Anything/Model/Eval.lean`. The evaluator threads a description log
+through the whole computation (`EvalM`); the only step that reads the database
+and the `describe` flag is `Eval.lookup`.
+
+Method (`Lemmas/EvalSim.lean`): `built_eval` shows, by one induction on the fuel,
+that `eval cfg fuel a` and `eval cfg' fuel a` are *the same program* (`Built`:
+log-free steps, lookups, sequencing) whenever `cfg` and `cfg'` agree on `debug`;
+every statement below is an induction over that program structure. All theorems
+hold for **every** tree (well-formed or not), every database (any function
+`List Char → LookupResult`), every amount of fuel and every incoming log.
+
+Notation: `{ cfg with describe := true }` is the describing run,
+`{ cfg with describe := false }` the plain one.
+-/
+
 namespace Anything.Props.C18
-theorem C18_placeholder : True := trivial
+open Anything Anything.Eval
+
+/-! ## The answer does not depend on `describe` (nor on the incoming log) -/
+
+/-- **C18 (same value).** Evaluating a tree with descriptions enabled returns the same
+result — value, unit or error — as without, whatever the two incoming logs are. -/
+theorem C18_same_value (cfg : Cfg) (fuel : Nat) (a : At) (d d' : List Desc) :
+    (eval { cfg with describe := true } fuel a d).1
+      = (eval { cfg with describe := false } fuel a d').1 :=
+  (built_eval { cfg with describe := true } { cfg with describe := false } rfl fuel a).sameVal
+    rfl d d'
+
+/-- The same for any two configurations over one database (same `debug`): the
+`describe` flags and the logs are irrelevant to the result. -/
+theorem C18_same_value_general (cfg cfg' : Cfg) (hdb : cfg'.db = cfg.db)
+    (hdbg : cfg'.debug = cfg.debug) (fuel : Nat) (a : At) (d d' : List Desc) :
+    (eval cfg fuel a d).1 = (eval cfg' fuel a d').1 :=
+  (built_eval cfg cfg' hdbg fuel a).sameVal hdb d d'
+
+/-- **C18 (same value, all results of a query).** -/
+theorem C18_same_value_queryLoop (cfg : Cfg) (as : List At) (d d' : List Desc) :
+    (queryLoop { cfg with describe := true } as d).1
+      = (queryLoop { cfg with describe := false } as d').1 := by
+  simp only [queryLoop_eq]
+  apply List.map_congr_left
+  intro a _
+  exact C18_same_value cfg (qFuel a) a [] []
+
+/-- **C18 (same value, `query` on source text).** Parsing does not look at the
+configuration; the results agree. -/
+theorem C18_same_value_query (cfg : Cfg) (src : List Char) :
+    (query { cfg with describe := true } src).map Prod.fst
+      = (query { cfg with describe := false } src).map Prod.fst := by
+  unfold query
+  cases Grammar.parseRoot src with
+  | error e => rfl
+  | ok forest =>
+    simp only [Except.map]
+    exact congrArg Except.ok (C18_same_value_queryLoop cfg _ [] [])
+
+/-! ## Without `describe` nothing is reported -/
+
+/-- **C18 (no describe, no log).** -/
+theorem C18_no_describe_no_log (cfg : Cfg) (fuel : Nat) (a : At) (d : List Desc) :
+    (eval { cfg with describe := false } fuel a d).2 = d :=
+  (built_eval { cfg with describe := false } { cfg with describe := false } rfl fuel a).noLog
+    rfl d
+
+theorem C18_no_describe_no_log_queryLoop (cfg : Cfg) (as : List At) (d : List Desc) :
+    (queryLoop { cfg with describe := false } as d).2 = d := by
+  simp only [queryLoop_eq]
+  have : (List.map (fun a => (eval { cfg with describe := false } (qFuel a) a []).2)
+      (live as)).flatten = [] := by
+    simp only [C18_no_describe_no_log, List.flatten_eq_nil_iff, List.mem_map]
+    rintro l ⟨_, _, rfl⟩
+    rfl
+  rw [this, List.append_nil]
+
+theorem C18_no_describe_no_log_query (cfg : Cfg) (src : List Char)
+    (rs : List (Except EvalErr Numeric)) (log : List Desc)
+    (h : query { cfg with describe := false } src = .ok (rs, log)) : log = [] := by
+  unfold query at h
+  cases hp : Grammar.parseRoot src with
+  | error e => simp only [hp] at h; cases h
+  | ok forest =>
+    simp only [hp, Except.ok.injEq] at h
+    have := C18_no_describe_no_log_queryLoop cfg (kidsAt 0 forest) []
+    rw [h] at this
+    exact this
+
+/-! ## With `describe` the log grows by a suffix that reports database facts -/
+
+/-- **C18 (the log only grows, uniformly).** The describing run appends to the incoming
+log a list `t = (run on the empty log).2` that does not depend on the incoming log —
+and neither does the result. (Holds for failing runs too: the log survives errors.) -/
+theorem C18_log_appends (cfg : Cfg) (fuel : Nat) (a : At) (d : List Desc) :
+    eval { cfg with describe := true } fuel a d
+      = ((eval { cfg with describe := true } fuel a []).1,
+         d ++ (eval { cfg with describe := true } fuel a []).2) := by
+  obtain ⟨r, t, hr, -⟩ := (built_eval { cfg with describe := true } _ rfl fuel a).log
+  have h0 := hr []
+  simp only [List.nil_append] at h0
+  rw [hr d, h0]
+
+/-- `C18_log_appends` in existential form. -/
+theorem C18_log_appends_exists (cfg : Cfg) (fuel : Nat) (a : At) :
+    ∃ r t, ∀ d, eval { cfg with describe := true } fuel a d = (r, d ++ t) :=
+  ⟨_, _, C18_log_appends cfg fuel a⟩
+
+theorem C18_log_appends_queryLoop (cfg : Cfg) (as : List At) (d : List Desc) :
+    queryLoop { cfg with describe := true } as d
+      = ((queryLoop { cfg with describe := true } as []).1,
+         d ++ (queryLoop { cfg with describe := true } as []).2) := by
+  simp only [queryLoop_eq, List.nil_append]
+
+/-- **C18 (the log is sound).** Every entry appended by the describing run — successful
+or not — is a phrase that the database maps to a constant, paired with *that*
+constant's description. (`cfg.db` is a function, so the constant is unique.) -/
+theorem C18_log_sound (cfg : Cfg) (fuel : Nat) (a : At) (d : List Desc)
+    (r : Except EvalErr Numeric) (t : List Desc)
+    (h : eval { cfg with describe := true } fuel a d = (r, d ++ t)) :
+    ∀ x ∈ t, ∃ c, cfg.db x.phrase = .found c ∧ x.description = c.description := by
+  obtain ⟨r', t', hr, ht⟩ := (built_eval { cfg with describe := true } _ rfl fuel a).log
+  rw [hr d] at h
+  simp only [Prod.mk.injEq] at h
+  have := List.append_cancel_left h.2
+  subst this
+  exact ht
+
+theorem C18_log_sound_queryLoop (cfg : Cfg) (as : List At) (d : List Desc)
+    (rs : List (Except EvalErr Numeric)) (t : List Desc)
+    (h : queryLoop { cfg with describe := true } as d = (rs, d ++ t)) :
+    ∀ x ∈ t, ∃ c, cfg.db x.phrase = .found c ∧ x.description = c.description := by
+  rw [queryLoop_eq] at h
+  simp only [Prod.mk.injEq] at h
+  have := List.append_cancel_left h.2
+  subst this
+  intro x hx
+  simp only [List.mem_flatten, List.mem_map] at hx
+  obtain ⟨l, ⟨a, _, rfl⟩, hx⟩ := hx
+  exact C18_log_sound cfg (qFuel a) a [] (eval { cfg with describe := true } (qFuel a) a []).1 _
+    (by rw [List.nil_append]) x hx
+
+/-- **C18 (a lookup reports the constant whose value it returns).** The one step that
+writes to the log: on a WORD or SENTENCE node whose text the database knows, the value
+and unit returned and the description appended come from the same constant `c`. -/
+theorem C18_lookup_reports (cfg : Cfg) (fuel : Nat) (a : At) (c : Fact) (d : List Desc)
+    (hk : a.t.kind = .WORD ∨ a.t.kind = .SENTENCE) (hdb : cfg.db a.t.text = .found c) :
+    eval { cfg with describe := true } (fuel + 1) a d
+      = (.ok { value := c.value, unit := c.unit },
+         d ++ [{ phrase := a.t.text, description := c.description }]) := by
+  rcases hk with hk | hk <;> simp only [eval, hk, lookup_apply, hdb, if_true]
+
+/-- A lookup of a phrase the database does not know fails and reports nothing. -/
+theorem C18_lookup_missing (cfg : Cfg) (fuel : Nat) (a : At) (d : List Desc)
+    (hk : a.t.kind = .WORD ∨ a.t.kind = .SENTENCE) (hdb : cfg.db a.t.text = .nothing) :
+    eval { cfg with describe := true } (fuel + 1) a d
+      = (.error (.err .missing a.off a.stop), d) := by
+  rcases hk with hk | hk <;> simp only [eval, hk, lookup_apply, hdb]
+
+/-! ## Exactly the facts used -/
+
+/-- **C18 (the log is complete).** If the describing run succeeds with value `v` and
+appends `t`, then under ANY database `db'` that agrees with `cfg.db` on the phrases
+reported in `t` the run is the same — same value, same log. The answer depends on the
+database only through the reported facts. -/
+theorem C18_log_complete (cfg : Cfg) (db' : Db) (fuel : Nat) (a : At) (d : List Desc)
+    (v : Numeric) (t : List Desc)
+    (h : eval { cfg with describe := true } fuel a d = (.ok v, d ++ t))
+    (hag : ∀ x ∈ t, db' x.phrase = cfg.db x.phrase) :
+    eval { cfg with describe := true, db := db' } fuel a d = (.ok v, d ++ t) :=
+  (built_eval { cfg with describe := true } { cfg with describe := true, db := db' } rfl fuel a
+    ).complete_ok rfl rfl d v t h hag
+
+/-- **C18 (complete, failing runs included).** Whatever the outcome `r` of the describing
+run, a database agreeing on the reported phrases gives the same outcome and log — unless
+`r` is itself a failed lookup (`missing` / `lookupError`, which names the one further
+phrase consulted by its span instead of a description). -/
+theorem C18_log_complete_general (cfg : Cfg) (db' : Db) (fuel : Nat) (a : At) (d : List Desc)
+    (r : Except EvalErr Numeric) (t : List Desc)
+    (h : eval { cfg with describe := true } fuel a d = (r, d ++ t))
+    (hag : ∀ x ∈ t, db' x.phrase = cfg.db x.phrase) :
+    eval { cfg with describe := true, db := db' } fuel a d = (r, d ++ t) ∨ LookupFail r :=
+  (built_eval { cfg with describe := true } { cfg with describe := true, db := db' } rfl fuel a
+    ).complete rfl rfl d r t h hag
+
+/-- **C18 (complete, whole query).** If no result of the query is a failed lookup, the
+list of results and the log are unchanged under any database agreeing on the log. -/
+theorem C18_log_complete_queryLoop (cfg : Cfg) (db' : Db) (as : List At) (d : List Desc)
+    (rs : List (Except EvalErr Numeric)) (t : List Desc)
+    (h : queryLoop { cfg with describe := true } as d = (rs, d ++ t))
+    (hok : ∀ r ∈ rs, ¬ LookupFail r)
+    (hag : ∀ x ∈ t, db' x.phrase = cfg.db x.phrase) :
+    queryLoop { cfg with describe := true, db := db' } as d = (rs, d ++ t) := by
+  rw [← h]
+  rw [queryLoop_eq] at h
+  simp only [Prod.mk.injEq] at h
+  obtain ⟨hrs, ht⟩ := h
+  have ht := List.append_cancel_left ht
+  have key : ∀ a ∈ live as, eval { cfg with describe := true, db := db' } (qFuel a) a []
+      = eval { cfg with describe := true } (qFuel a) a [] := by
+    intro a ha
+    have h1 : eval { cfg with describe := true } (qFuel a) a []
+        = ((eval { cfg with describe := true } (qFuel a) a []).1,
+           [] ++ (eval { cfg with describe := true } (qFuel a) a []).2) := by simp
+    rcases C18_log_complete_general cfg db' (qFuel a) a [] _ _ h1 (fun x hx => hag x (by
+      rw [← ht]
+      simp only [List.mem_flatten, List.mem_map]
+      exact ⟨_, ⟨a, ha, rfl⟩, hx⟩)) with h2 | h2
+    · rw [h2]; simp
+    · exact absurd h2 (hok _ (by rw [← hrs]; exact List.mem_map.2 ⟨a, ha, rfl⟩))
+  simp only [queryLoop_eq, Prod.mk.injEq, List.append_cancel_left_eq]
+  constructor
+  · exact List.map_congr_left fun a ha => by rw [key a ha]
+  · congr 1
+    exact List.map_congr_left fun a ha => by rw [key a ha]
+
+/-- **C18 (every reported fact was used).** Conversely, each reported phrase `p` really
+was looked up: remove it from the database (`db'` has no fact for `p` and is `cfg.db`
+elsewhere) and the run no longer succeeds — it fails at a lookup. Together with
+`C18_log_complete`: the log is *exactly* the set of phrases consulted by a
+successful run. -/
+theorem C18_log_necessary (cfg : Cfg) (db' : Db) (fuel : Nat) (a : At) (d : List Desc)
+    (v : Numeric) (t : List Desc) (p : List Char)
+    (h : eval { cfg with describe := true } fuel a d = (.ok v, d ++ t))
+    (hp : p ∈ t.map (·.phrase))
+    (hag : ∀ s, s ≠ p → db' s = cfg.db s) (hnf : ∀ c, db' p ≠ .found c) :
+    ∃ e d2, eval { cfg with describe := true, db := db' } fuel a d = (.error e, d2)
+      ∧ IsLookupFail e :=
+  (built_eval { cfg with describe := true } { cfg with describe := true, db := db' } rfl fuel a
+    ).necessary rfl rfl p hag hnf d v t h hp
+
+/-! ## Order -/
+
+/-- **C18 (order, sequencing).** The log of `m` followed by `f` is the log of `m`
+followed by the log of what `f` does with `m`'s value — and just the log of `m` if `m`
+fails. This is the definition of the evaluator's monad; the evaluator is a nest of such
+sequencings (`built_all`), so the log lists the lookups in evaluation order. -/
+theorem C18_log_order_seq {α β : Type} (m : EvalM α) (f : α → EvalM β) (d : List Desc) :
+    ((m >>= f) d).2 = match m d with
+      | (.ok x, d1) => (f x d1).2
+      | (.error _, d1) => d1 := by
+  simp only [bind_apply]
+  generalize m d = p
+  rcases p with ⟨r, d1⟩
+  cases r <;> rfl
+
+/-- **C18 (order, whole query).** The log of a query is the incoming log followed by the
+logs of its root children, concatenated in source order; the result list is the list of
+their isolated results. -/
+theorem C18_log_order_queryLoop (cfg : Cfg) (as : List At) (d : List Desc) :
+    queryLoop cfg as d =
+      ((live as).map (fun a => (eval cfg (qFuel a) a []).1),
+       d ++ ((live as).map (fun a => (eval cfg (qFuel a) a []).2)).flatten) :=
+  queryLoop_eq cfg as d
+
+/-- **C18 (order, binary operation).** An OPERATION node with exactly one operator
+(`l op r`, `op` one of `+ - * / implicit-mul ^`) evaluates its RIGHT operand first, then
+its left operand, then combines the two values with the log-free `arith` step. -/
+theorem C18_eval_binary (cfg : Cfg) (fuel : Nat) (a l op r : At)
+    (hk : a.t.kind = .OPERATION)
+    (hkids : a.kids.filter (fun k => k.t.hasChildren) = [l, op, r])
+    (hop : IsArith op.t.kind) :
+    eval cfg (fuel + 3) a =
+      (do let rv ← eval cfg (fuel + 1) r
+          let lv ← eval cfg fuel l
+          arith cfg op.t.kind a.off a.stop lv rv) :=
+  eval_binary cfg fuel a l op r hk hkids hop
+
+/-- … hence its log is: the right operand's lookups, then (if the right operand
+succeeded) the left operand's lookups, and nothing else. -/
+theorem C18_log_order_binary (cfg : Cfg) (fuel : Nat) (a l op r : At) (d : List Desc)
+    (hk : a.t.kind = .OPERATION)
+    (hkids : a.kids.filter (fun k => k.t.hasChildren) = [l, op, r])
+    (hop : IsArith op.t.kind) :
+    (eval cfg (fuel + 3) a d).2 = match eval cfg (fuel + 1) r d with
+      | (.ok _, d1) => (eval cfg fuel l d1).2
+      | (.error _, d1) => d1 := by
+  rw [eval_binary cfg fuel a l op r hk hkids hop]
+  simp only [bind_apply]
+  generalize eval cfg (fuel + 1) r d = p1
+  rcases p1 with ⟨e1 | rv, d1⟩
+  · rfl
+  · simp only
+    generalize eval cfg fuel l d1 = p2
+    rcases p2 with ⟨e2 | lv, d2⟩
+    · rfl
+    · obtain ⟨ra, hra⟩ := neutral_arith cfg op.t.kind a.off a.stop lv rv
+      simp only [hra]
+
+/-! ## Several queries against one database -/
+
+/-- **C18 (isolation).** The results of evaluating `as` followed by `bs` in one go (one
+database, one shared log) are the results of `as` followed by the results of `bs`, each
+evaluated on its own with ANY `describe` flag and ANY incoming log. -/
+theorem C18_isolated (cfg : Cfg) (as bs : List At) (b₁ b₂ : Bool) (d d₁ d₂ : List Desc) :
+    (queryLoop cfg (as ++ bs) d).1
+      = (queryLoop { cfg with describe := b₁ } as d₁).1
+        ++ (queryLoop { cfg with describe := b₂ } bs d₂).1 := by
+  simp only [queryLoop_eq, live_append, List.map_append]
+  congr 1
+  · exact List.map_congr_left fun a _ =>
+      C18_same_value_general cfg { cfg with describe := b₁ } rfl rfl (qFuel a) a [] []
+  · exact List.map_congr_left fun a _ =>
+      C18_same_value_general cfg { cfg with describe := b₂ } rfl rfl (qFuel a) a [] []
+
+/-- **C18 (isolation, each query).** Every root child gets the result it has when it is
+the only query, whatever log (`f a`) that isolated evaluation starts from. -/
+theorem C18_isolated_each (cfg : Cfg) (as : List At) (d : List Desc) (f : At → List Desc) :
+    (queryLoop cfg as d).1 = as.flatMap (fun a => (queryLoop cfg [a] (f a)).1) := by
+  induction as generalizing d with
+  | nil => rfl
+  | cons a rest ih =>
+    have h := C18_isolated cfg [a] rest cfg.describe cfg.describe d (f a) d
+    simp only [List.singleton_append] at h
+    rw [h, List.flatMap_cons, ih d]
+
+/-- **C18 (isolation, varying orders).** Evaluating the same queries in another order
+gives the same results, in that other order. -/
+theorem C18_isolated_perm (cfg : Cfg) (as as' : List At) (d d' : List Desc)
+    (h : as.Perm as') : (queryLoop cfg as d).1.Perm (queryLoop cfg as' d').1 := by
+  simp only [queryLoop_eq]
+  exact (h.filter _).map _
+
+/-! ## Non-vacuity: a concrete database and the tree of `pi * 2 + e`
+
+`sumT` is what `Grammar.parseRoot` returns for `pi * 2 + e` (ids as syntree assigns
+them). `db0` knows `pi` and `e`; `db1` agrees with it on those two phrases and fails on
+every other phrase; `db2` is `db0` without `e`. -/
+
+namespace Demo
+
+def db0 : Db := fun s =>
+  if s = ['p', 'i'] then .found ⟨3, [], ['r', 'a', 't', 'i', 'o']⟩
+  else if s = ['e'] then .found ⟨2, [], ['E', 'u', 'l', 'e', 'r']⟩ else .nothing
+
+def db1 : Db := fun s =>
+  if s = ['p', 'i'] then .found ⟨3, [], ['r', 'a', 't', 'i', 'o']⟩
+  else if s = ['e'] then .found ⟨2, [], ['E', 'u', 'l', 'e', 'r']⟩ else .error
+
+def db2 : Db := fun s =>
+  if s = ['p', 'i'] then .found ⟨3, [], ['r', 'a', 't', 'i', 'o']⟩ else .nothing
+
+def ws (i : Nat) : Tree := .tok i .WHITESPACE [' ']
+def piT : Tree := .node 0 .WORD [.tok 1 .WORD ['p', 'i']]
+def eT : Tree := .node 13 .WORD [.tok 14 .WORD ['e']]
+def prodT : Tree := .node 8 .OPERATION
+  [piT, ws 2, .node 3 .OP_MUL [.tok 4 .STAR ['*']], ws 5, .node 7 .NUMBER [.tok 6 .NUMBER ['2']]]
+def sumT : Tree := .node 15 .OPERATION
+  [prodT, ws 9, .node 10 .OP_ADD [.tok 11 .PLUS ['+']], ws 12, eT]
+
+def cfg0 : Cfg := { db := db0 }
+def log0 : List Desc :=
+  [⟨['e'], ['E', 'u', 'l', 'e', 'r']⟩, ⟨['p', 'i'], ['r', 'a', 't', 'i', 'o']⟩]
+
+end Demo
+open Demo
+
+/-- The describing run of `pi * 2 + e`: value 8, and the two facts in evaluation order
+(right operand `e` first). -/
+theorem C18_demo_run (d : List Desc) :
+    eval { cfg0 with describe := true } 10 ⟨0, sumT⟩ d = (.ok ⟨8, []⟩, d ++ log0) := by
+  rw [C18_log_appends]
+  have : eval { cfg0 with describe := true } 10 ⟨0, sumT⟩ [] = (.ok ⟨8, []⟩, log0) := by
+    with_unfolding_all rfl
+  rw [this]
+
+/-- `db1` agrees with `db0` on the two reported phrases (and differs elsewhere). -/
+theorem C18_demo_agree : ∀ x ∈ log0, db1 x.phrase = cfg0.db x.phrase := by
+  intro x hx
+  simp only [log0, List.mem_cons, List.not_mem_nil, or_false] at hx
+  rcases hx with rfl | rfl <;> simp [db0, db1, cfg0]
+
+/-- `C18_same_value`, `C18_no_describe_no_log` on the example: same value 8, no log. -/
+example : eval { cfg0 with describe := false } 10 ⟨0, sumT⟩ log0 = (.ok ⟨8, []⟩, log0) := by
+  apply Prod.ext
+  · rw [← C18_same_value cfg0 10 ⟨0, sumT⟩ [] log0, C18_demo_run]
+  · exact C18_no_describe_no_log cfg0 10 ⟨0, sumT⟩ log0
+
+/-- Hypotheses of `C18_log_complete` are satisfiable non-trivially: a successful run with a
+non-empty report, and a *different* database agreeing on the reported phrases. -/
+example : ∃ (cfg : Cfg) (db' : Db) (fuel : Nat) (a : At) (d : List Desc) (v : Numeric)
+    (t : List Desc),
+    eval { cfg with describe := true } fuel a d = (.ok v, d ++ t) ∧ t ≠ [] ∧
+    (∀ x ∈ t, db' x.phrase = cfg.db x.phrase) ∧ db' ['x'] ≠ cfg.db ['x'] :=
+  ⟨cfg0, db1, 10, ⟨0, sumT⟩, [], ⟨8, []⟩, log0, C18_demo_run [], by decide, C18_demo_agree,
+    by simp [cfg0, db0, db1]⟩
+
+/-- … and the conclusion then gives the run under `db1`. -/
+example : eval { db := db1, describe := true } 10 ⟨0, sumT⟩ [] = (.ok ⟨8, []⟩, [] ++ log0) :=
+  C18_log_complete cfg0 db1 10 ⟨0, sumT⟩ [] ⟨8, []⟩ log0 (C18_demo_run []) C18_demo_agree
+
+/-- Hypotheses of `C18_log_necessary` are satisfiable: `e` is reported; `db2` is `db0`
+without `e`. The run under `db2` fails at the lookup of `e`. -/
+example : ∃ e d2, eval { db := db2, describe := true } 10 ⟨0, sumT⟩ [] = (.error e, d2)
+    ∧ IsLookupFail e :=
+  C18_log_necessary cfg0 db2 10 ⟨0, sumT⟩ [] ⟨8, []⟩ log0 ['e'] (C18_demo_run []) (by decide)
+    (by intro s hs; simp only [db2, cfg0, db0, hs, if_false])
+    (by intro c; simp [db2])
+
+/-- The exception in `C18_log_complete_general` is needed: under `db2` the run fails at a
+lookup having reported nothing, and `db0` agrees with `db2` on that empty report but
+succeeds. -/
+example : (eval { db := db2, describe := true } 10 ⟨0, sumT⟩ []).2 = [] ∧
+    ((eval { db := db2, describe := true } 10 ⟨0, sumT⟩ []).1 matches .error (.err .missing 9 10))
+    := by decide +kernel
+
+/-- `C18_log_order_binary` applies to `sumT` (its hypotheses hold). -/
+example : (⟨0, sumT⟩ : At).t.kind = .OPERATION ∧
+    (⟨0, sumT⟩ : At).kids.filter (fun k => k.t.hasChildren)
+      = [⟨0, prodT⟩, ⟨7, .node 10 .OP_ADD [.tok 11 .PLUS ['+']]⟩, ⟨9, eT⟩] ∧
+    IsArith (Tree.node 10 .OP_ADD [.tok 11 .PLUS ['+']]).kind :=
+  ⟨rfl, by with_unfolding_all rfl, .inl rfl⟩
+
+/-- `C18_isolated` on two queries sharing one log: the second result does not see the
+first one's log. -/
+example : (queryLoop { cfg0 with describe := true } [⟨0, sumT⟩, ⟨0, ws 0⟩, ⟨0, eT⟩] []).1
+    = (queryLoop cfg0 [⟨0, sumT⟩] []).1 ++ (queryLoop cfg0 [⟨0, ws 0⟩, ⟨0, eT⟩] log0).1 :=
+  C18_isolated { cfg0 with describe := true } [⟨0, sumT⟩] [⟨0, ws 0⟩, ⟨0, eT⟩] false false [] [] log0
+
+example : (queryLoop { cfg0 with describe := true } [⟨0, sumT⟩, ⟨0, ws 0⟩, ⟨0, eT⟩] []).2
+    = log0 ++ [⟨['e'], ['E', 'u', 'l', 'e', 'r']⟩] := by decide +kernel
+
 end Anything.Props.C18
